@@ -1,6 +1,6 @@
 (* C13: load reproduces the source table faithfully (file level, wrappers, headers, selection). *)
 From Coq Require Import List ZArith Bool.
-From DF Require Import Base.Str Base.ListX Base.Value Proc.RowOps Proc.Fields Proc.Load Proc.Load_proofs Proc.LoadHeaders_proofs IO.Csv IO.Csv_proofs IO.LoadCsv_proofs.
+From DF Require Import Base.Str Base.ListX Base.Value Proc.RowOps Proc.Fields Proc.Load Proc.Load_proofs Proc.LoadHeaders_proofs IO.Csv IO.Csv_proofs IO.LoadCsv_proofs Frame.Pull Frame.Pull_proofs.
 Import ListNotations.
 Open Scope Z_scope.
 
@@ -133,3 +133,16 @@ Example C13_csv_example :
   read_csv (write_csv [[s "h1"; s "h 2"]; [s "a,b"; s "say ""hi"""]; [s ""; s "x"]])
   = Ok [[s "h1"; s "h 2"]; [s "a,b"; s "say ""hi"""]; [s ""; s "x"]].
 Proof. vm_compute. reflexivity. Qed.
+
+(* load((descriptor, resources), resources=selector) over a live stream (fix f784d67), in the pull protocol of Frame/Pull.v:
+   a consumer that reads every resource to its end, the skipped ones included, lets a producer that records rows only as
+   they are read (duplicate's store, join's index) see the whole package; one that skips a resource unread does not *)
+Theorem C13_pair_reader_lets_the_producer_see_everything : forall (R : Type) (pkg : list (list R)),
+  done (fst (orun R false (start R pkg) (reads (map (@List.length R) pkg)))) = pkg.
+Proof. exact full_reader_complete. Qed.
+Print Assumptions C13_pair_reader_lets_the_producer_see_everything.
+
+Theorem C13_skipping_reader_refuted : exists (pkg : list (list nat)),
+  done (fst (orun nat false (start nat pkg) (reads (map (fun _ => 0%nat) pkg)))) <> pkg.
+Proof. exact skipping_reader_refuted. Qed.
+Print Assumptions C13_skipping_reader_refuted.
